@@ -55,6 +55,14 @@ def scenarios(tier, seed):
             sc = gen.with_tol(gen.base(m, a, b, abs(b - a) / 2.0))
             sc["ops"] = [{"op": "integrate", "cbs": [{"kind": "setdt", "vals": [abs(b - a) / (48.0 if not thorough else 200.0)]}]}]
             scs.append(sc)
+    # allocation failure: a request for more than 150 rows of storage raises MemoryError; the library falls back to blocks of 100 rows and
+    # the run (400 steps) must be what it is without the fault
+    for m in ["RK4", "RK45CK", "BackwardEuler"] + (["ABAS5O6H", "DOPRI45"] if thorough else []):
+        for (a, b) in ((0.0, 2.0), (1.0, -1.0)):
+            sc = gen.with_tol(gen.base(m, a, b, abs(b - a) / 400.0))
+            sc["memfault"] = 150
+            sc["ops"] = [{"op": "integrate", "t": a + (b - a) * 0.75}, {"op": "integrate"}]
+            scs.append(sc)
     # the clamped last step is rejected and shortened by the controller (steep solution just before the target)
     for m in ["RK45CK", "DOPRI45"] + (["RK87", "AHE"] if thorough else []):
         for (a, b) in ((0.0, 1.0), (0.0, -1.0)):
@@ -109,6 +117,9 @@ def check(run, replay=None):
         commits = sum(1 for e in tr["events"] if e["e"] == "Counter" and e["new"] == e["old"] + 1)
         if commits >= 2 and not (sc["t0"] == 0.0 and sc["tf"] > 0 and len(sc["ops"]) == 1):
             run.nontrivial.add((tr["family"], sc["tf"] > sc["t0"], sc["t0"] < 0, sc["tf"] < 0, len(sc["ops"]), sc.get("dtype")))
+    run.notes["allocation_faults_injected"] = sum(int(tr.get("memFaults", 0)) for tr in traces)
+    if not replay and run.notes["allocation_faults_injected"] == 0:
+        raise core.MachineryError("the allocation-fault scenarios never hit the injected MemoryError")
     k = min(1, len(scs) - 1)
     run.sample({"scenario": scs[k], "trace_head": traces[k]["events"][:12]})
     odecore.judge_traces(run, scs, traces, PREFIX)
